@@ -321,7 +321,8 @@ func main() {
 							ws = append(ws, [][]string{{"set:1", "set:3"}, {"set:2"}})
 						}
 					case "coll":
-						ws = [][][]string{{{"upd:a:1", "del:a"}}, {{"ups:b:1", "upd:a:2"}}, {{"ups:b:1", "del:b"}}, {{"upd:a:1"}, {"upd:a:2"}}, {{"upd:a:1"}, {"del:a"}}}
+						ws = [][][]string{{{"upd:a:1", "del:a"}}, {{"ups:b:1", "upd:a:2"}}, {{"ups:b:1", "del:b"}}, {{"upd:a:1"}, {"upd:a:2"}}, {{"upd:a:1"}, {"del:a"}},
+							{{"del:a"}, {"ups:a:2"}}} // a delete racing the re-creation of the same item
 						if !mask {
 							ws = append(ws, [][]string{{"ups:b:1"}, {"upd:a:2", "del:b"}})
 						}
